@@ -91,8 +91,7 @@ func (core *JApiCore) next(lexeme scanner.Lexeme) *jerr.JApiError {
 		return nil
 
 	case scanner.ContextExplicitOpening:
-		core.processContextBegin()
-		return nil
+		return core.processContextBegin(lexeme)
 
 	case scanner.ContextExplicitClosing:
 		return core.processContextEnd()
@@ -134,8 +133,17 @@ func (core *JApiCore) processBody(lexeme scanner.Lexeme) {
 	core.currentDirective.BodyCoords = coordsFromLexeme(lexeme)
 }
 
-func (core *JApiCore) processContextBegin() {
+func (core *JApiCore) processContextBegin(lexeme scanner.Lexeme) *jerr.JApiError {
+	if core.currentDirective.HasExplicitContext {
+		// One more opening parenthesis: there is no directive which it could
+		// belong to, and nothing would ever close it.
+		return core.japiError(
+			fmt.Sprintf("%s: unexpected %s", jerr.IncorrectDirectiveContext, lexeme.Type().String()),
+			lexeme.Begin(),
+		)
+	}
 	core.currentDirective.HasExplicitContext = true
+	return nil
 }
 
 func (core *JApiCore) closeLastExplicitContext() *jerr.JApiError {
